@@ -285,6 +285,8 @@ class HeapWalker(FuncWalker):
         """'basic' (view), 'fancy' (copy), 'key' (container element), 'unknown'"""
         if isinstance(idx, ast.Slice):
             return 'basic'
+        if isinstance(idx, ast.Attribute) and idx.attr == 'newaxis':
+            return 'basic'
         if isinstance(idx, ast.Constant):
             if idx.value is None or idx.value is Ellipsis or isinstance(idx.value, (int, bool)):
                 return 'basic'
